@@ -39,16 +39,20 @@ package strategy
 //@   loop 1 invariant true
 //@ func cleanupPods
 //@   trusted
+//@   logs
 //@   requires status != nil
 //@   modifies status.Conditions, elems(status.Conditions)
 //@ func deletePodLabel
 //@   trusted
+//@   logs
 //@   modifies nothing
 //@ func addPodLabel
 //@   trusted
+//@   logs
 //@   modifies nothing
 //@
 //@ func ManageDeployment
+//@   logs
 //@   requires client != nil && daemonset != nil && params != nil && params.NewStatus != nil && params.Strategy != nil && params.Replicaset != nil
 //@   requires params.Strategy.RollingUpdate.SlowStartIntervalDuration != nil && params.Strategy.RollingUpdate.MaxParallelPodCreation != nil
 //@   requires params.Strategy.RollingUpdate.SlowStartAdditiveIncrease != nil
